@@ -398,6 +398,7 @@ func verifHosts(l *roundRobinLoadBalancer) []*Host { return l.hosts.Load().([]*H
 // used only if its frame's version is the connection's and it is not compressed on a connection without compression.
 //@ func proxycore.ClientConn.preparedCacheKey [C08]
 //@   trusted
+//@   reads c.compression, version, id
 //@   requires c != nil
 //@   ensures result == ufStr("prepared.key", c.compression, version, ufStr("hex", id))
 //@   modifies nothing
